@@ -82,8 +82,24 @@ pub enum Call {
 
 #[derive(Serialize, Deserialize, Clone, Debug)]
 pub enum Case {
-    Session { pools: Pools, a: Vec<EGen>, b: Vec<EGen>, config: Option<(usize, usize)> },
-    Primitives { file: bool, pools: Pools, entries: Vec<EGen>, calls: Vec<Call> },
+    Session {
+        pools: Pools,
+        a: Vec<EGen>,
+        b: Vec<EGen>,
+        config: Option<(usize, usize)>,
+        /// entries of OTHER documents held by the redb stores (side, namespace slot, entry); the ordered maps hold only the synced document
+        #[serde(default)]
+        others: Vec<(bool, u8, EGen)>,
+    },
+    Primitives {
+        file: bool,
+        pools: Pools,
+        entries: Vec<EGen>,
+        calls: Vec<Call>,
+        /// entries of other documents in the same redb store (namespace slot, entry)
+        #[serde(default)]
+        others: Vec<(u8, EGen)>,
+    },
 }
 
 fn idgen() -> impl Strategy<Value = IdGen> {
@@ -123,8 +139,11 @@ impl Prop for C08 {
 
     fn strategy(tier: Tier) -> BoxedStrategy<Case> {
         let max = tier.pick(12, 40);
-        let session = (pools(8), vec(egen(), 0..=max), vec(egen(), 0..=max), sync_config()).prop_map(|(pools, a, b, config)| Case::Session { pools, a, b, config });
-        let prims = (prop::bool::weighted(0.15), pools(6), vec(egen(), 0..=14), vec(call(), 1..=24)).prop_map(|(file, pools, entries, calls)| Case::Primitives { file, pools, entries, calls });
+        let others_s = prop_oneof![1 => Just(vec![]), 1 => vec((any::<bool>(), 0u8..6, egen()), 1..=6)];
+        let others_p = prop_oneof![1 => Just(vec![]), 1 => vec((0u8..6, egen()), 1..=8)];
+        let session = (pools(8), vec(egen(), 0..=max), vec(egen(), 0..=max), sync_config(), others_s).prop_map(|(pools, a, b, config, others)| Case::Session { pools, a, b, config, others });
+        let prims = (prop::bool::weighted(0.15), pools(6), vec(egen(), 0..=14), vec(call(), 1..=24), others_p)
+            .prop_map(|(file, pools, entries, calls, others)| Case::Primitives { file, pools, entries, calls, others });
         prop_oneof![1 => session, 2 => prims].boxed()
     }
 
@@ -132,8 +151,8 @@ impl Prop for C08 {
         let mut o = Outcome::default();
         verif::set_clock(Some(T0 + 3));
         let r = match case {
-            Case::Session { pools, a, b, config } => session(ctx, pools, a, b, *config, &mut o),
-            Case::Primitives { file, pools, entries, calls } => primitives(ctx, *file, pools, entries, calls, &mut o),
+            Case::Session { pools, a, b, config, others } => session(ctx, pools, a, b, *config, others, &mut o),
+            Case::Primitives { file, pools, entries, calls, others } => primitives(ctx, *file, pools, entries, calls, others, &mut o),
         };
         verif::set_sync_config(None);
         verif::set_clock(None);
@@ -146,12 +165,12 @@ impl Prop for C08 {
     fn assumptions() -> Vec<String> {
         vec![
             "the ordered-map backend is driven by the crate's own generic reconciliation routine through the adapter hook (validation = accept, content status = Missing, exactly what a Replica without a status callback does)".into(),
-            "each store holds one document: ranges that name another document's ids are compared on single-document stores only".into(),
+            "half of the cases put other documents (ids below and above) into the same redb store; ranges that NAME another document's ids are compared on single-document stores only (a peer naming foreign ids is not covered by the property)".into(),
         ]
     }
 }
 
-fn session(ctx: &mut Ctx, pools: &Pools, a: &[EGen], b: &[EGen], config: Option<(usize, usize)>, o: &mut Outcome) -> R<()> {
+fn session(ctx: &mut Ctx, pools: &Pools, a: &[EGen], b: &[EGen], config: Option<(usize, usize)>, others: &[(bool, u8, EGen)], o: &mut Outcome) -> R<()> {
     o.class("sessions");
     let keys = pools.keys();
     let authors = pools.authors();
@@ -181,6 +200,24 @@ fn session(ctx: &mut Ctx, pools: &Pools, a: &[EGen], b: &[EGen], config: Option<
                 }
             }
         }
+    }
+    // unrelated documents in the redb stores (different on each side): must not leak into the session
+    let mut n_other = 0;
+    for (side_a, slot, e) in others {
+        if *slot % N_NAMESPACES as u8 == pools.ns % N_NAMESPACES as u8 {
+            continue;
+        }
+        let other = namespace(*slot);
+        let e = sign(other, &to_espec(e, &authors, &keys));
+        for pair in stores.iter_mut() {
+            let st = if *side_a { &mut pair.0 } else { &mut pair.1 };
+            es(st.store.import_namespace(other.clone().into()))?;
+            let _ = es(verif::store_put(&mut st.store, e.clone()))?;
+        }
+        n_other += 1;
+    }
+    if n_other > 0 {
+        o.class("other-documents-in-the-store");
     }
     // transcripts
     let mut transcripts: Vec<Vec<Vec<u8>>> = vec![];
@@ -245,7 +282,7 @@ fn session(ctx: &mut Ctx, pools: &Pools, a: &[EGen], b: &[EGen], config: Option<
     Ok(())
 }
 
-fn resolve_id(g: &IdGen, ns: iroh_docs::NamespaceId, authors: &[u8], keys: &[Vec<u8>]) -> RecordIdentifier {
+fn resolve_id(g: &IdGen, ns: iroh_docs::NamespaceId, authors: &[u8], keys: &[Vec<u8>], multi: bool) -> RecordIdentifier {
     let a = if (g.a as usize) < authors.len() { author(authors[g.a as usize]).id() } else { author(5 - (g.a % 2)).id() };
     let mut k = keys[idx(g.k, keys.len())].clone();
     match g.t % 6 {
@@ -258,11 +295,12 @@ fn resolve_id(g: &IdGen, ns: iroh_docs::NamespaceId, authors: &[u8], keys: &[Vec
         4 => k.push(0),
         _ => k = lexical_successor(&k),
     }
-    let nsid = if g.foreign_ns { namespace(4).id() } else { ns };
+    // ranges that name another document's ids are only compared on single-document stores
+    let nsid = if g.foreign_ns && !multi { namespace(4).id() } else { ns };
     RecordIdentifier::new(nsid, a, k)
 }
 
-fn primitives(ctx: &mut Ctx, file: bool, pools: &Pools, entries: &[EGen], calls: &[Call], o: &mut Outcome) -> R<()> {
+fn primitives(ctx: &mut Ctx, file: bool, pools: &Pools, entries: &[EGen], calls: &[Call], others: &[(u8, EGen)], o: &mut Outcome) -> R<()> {
     o.class(if file { "primitives/file" } else { "primitives/memory" });
     let keys = pools.keys();
     let authors = pools.authors();
@@ -271,6 +309,20 @@ fn primitives(ctx: &mut Ctx, file: bool, pools: &Pools, entries: &[EGen], calls:
     let mut st = AnyStore::new(ctx, file)?;
     es(st.store.import_namespace(nssec.clone().into()))?;
     let mut bt = Adapter(Bt::default());
+    // other documents in the same redb store (ids below and above ours); the ordered map holds only this document
+    let mut multi = false;
+    for (slot, e) in others {
+        if *slot % N_NAMESPACES as u8 == pools.ns % N_NAMESPACES as u8 {
+            continue;
+        }
+        let other = namespace(*slot);
+        es(st.store.import_namespace(other.clone().into()))?;
+        let _ = es(verif::store_put(&mut st.store, sign(other, &to_espec(e, &authors, &keys))))?;
+        multi = true;
+    }
+    if multi {
+        o.class("other-documents-in-the-store");
+    }
     for e in entries {
         let e = sign(&nssec, &to_espec(e, &authors, &keys));
         let got = es(verif::store_put(&mut st.store, e.clone()))?;
@@ -286,7 +338,7 @@ fn primitives(ctx: &mut Ctx, file: bool, pools: &Pools, entries: &[EGen], calls:
         let state = || state_text.clone();
         match c {
             Call::GetRange(x, y) | Call::Fingerprint(x, y) => {
-                let (x, y) = (resolve_id(x, ns, &authors, &keys), resolve_id(y, ns, &authors, &keys));
+                let (x, y) = (resolve_id(x, ns, &authors, &keys, multi), resolve_id(y, ns, &authors, &keys, multi));
                 if x > y {
                     o.class("range/wrap-around");
                     o.nontrivial = true;
@@ -327,7 +379,7 @@ fn primitives(ctx: &mut Ctx, file: bool, pools: &Pools, entries: &[EGen], calls:
                 }
             }
             Call::PrefixesOf(x) => {
-                let id = resolve_id(x, ns, &authors, &keys);
+                let id = resolve_id(x, ns, &authors, &keys, multi);
                 let got = es(verif::store_prefixes_of(&mut st.store, ns, &id))?;
                 let want = bt.0.prefixes_of(&id);
                 if want.iter().any(|e| e.key().len() < id.key().len()) {
@@ -340,7 +392,7 @@ fn primitives(ctx: &mut Ctx, file: bool, pools: &Pools, entries: &[EGen], calls:
                 }
             }
             Call::RemovePrefix(x, thr) => {
-                let id = resolve_id(x, ns, &authors, &keys);
+                let id = resolve_id(x, ns, &authors, &keys, multi);
                 if id.key().last() == Some(&0xFF) {
                     o.class("remove-prefix/ends-in-ff");
                     o.nontrivial = true;
